@@ -2,7 +2,7 @@ from run import Job
 
 MANIFEST = dict(
     category="other",
-    text="Structural clauses of C03 decided on the real PLS()/PLSYPredictorAllLV bodies for bounded concrete shapes with all values symbolic: "
+    text="Structural clauses of C03 decided on the real PLS() and PLSYPredictorAllLV() bodies for bounded concrete shapes with all values symbolic: "
          "model field shapes, nlv clamp, component pc stored in column pc of every score/loading/weight table, recalculated responses laid "
          "out LV-major (column ny*a+j), and stored recalculation residual = recalculated - matching observed response for every response "
          "and every a. Heavy numerical callees enter through contract-derived stubs. Orthogonality / reconstruction identities are floating-"
@@ -38,6 +38,13 @@ def jobs(tier):
     for (n, xc, ny, nlv) in [(2, 2, 2, 2), (2, 2, 1, 2), (2, 1, 2, 2), (3, 2, 2, 1), (2, 2, 3, 2), (1, 2, 2, 2)]:
         J.append(pls_job(n, xc, ny, nlv, True, "quick", "A"))
         J.append(pls_job(n, xc, ny, nlv, True, "quick", "B"))
+    for (n, xc, ny, nlv) in [(2, 2, 2, 2), (3, 1, 1, 3), (2, 2, 3, 1)]:
+        d = {"VC_N": n, "VC_XC": xc, "VC_NY": ny, "VC_NLV": nlv, "VC_UNIT_ALLLV": None, "VC_STUB_YPRED": None, "VC_STUB_SCOREPRED": None}
+        tag = "n=%d,xc=%d,ny=%d,nlv=%d" % (n, xc, ny, nlv)
+        J.append(Job("PLSYPredictorAllLV@" + tag, "C03/pls.c", entry="h_PLSYPredictorAllLV", srcs=SRCS, kind="bounded", defines=d,
+                     remove_bodies=RB + ["PLSYPredictor", "PLSScorePredictor"], stubs=["stubs/pls_stubs.c"], unwind=max(n, xc, ny * nlv, 2) + 3,
+                     functions=["PLSYPredictorAllLV"], bound="concrete shape %s; predictions arbitrary (recording stubs)" % tag,
+                     clause="PLSYPredictorAllLV: LV-major layout (column ny*lv+j = response j with lv+1 latent variables), shapes, one score prediction"))
     if tier == "thorough":
         for (n, xc, ny, nlv) in [(3, 3, 2, 3), (2, 3, 3, 3), (3, 2, 3, 2)]:
             J.append(pls_job(n, xc, ny, nlv, True, "thorough", "A"))
